@@ -483,6 +483,30 @@ def prefix_round(n, ratios, i):
     return sum(round(n * r) for r in list(ratios)[:i])
 
 
+def own_copies(new, original):
+    """every callable held is the holder's own copy: a different object than the caller's, unless it is a plain function / builtin
+    (deepcopy returns those unchanged; they carry no state of their own)"""
+    import types
+    return all(a is not b or isinstance(b, (types.FunctionType, types.BuiltinFunctionType, type(None))) or not hasattr(b, '__dict__')
+               for a, b in zip(new, original))
+
+
+def shuffle_state(k):
+    raise NotImplementedError('the shuffle log exists only symbolically (see vkb.c17 / vkb.c13 for the concrete checks)')
+
+
+def gen_state(g):
+    raise NotImplementedError('generator states are compared only symbolically')
+
+
+def adv_shuffle(s, n):
+    raise NotImplementedError('generator states are compared only symbolically')
+
+
+def same_state(a, b):
+    raise NotImplementedError('generator states are compared only symbolically')
+
+
 def shuffle_perm(k, r):
     raise NotImplementedError('the shuffle log exists only symbolically (see vkb.c17 for the concrete check)')
 
